@@ -63,6 +63,8 @@ def run(ctx, rep):
     rep.guarded("R10-FOLDOUT", lambda: c02.r_foldout(ctx.shape, rep, btab.BuiltinTables(ctx.shape), "R10-FOLDOUT"))
     rep.rule("R10-BIGINTSITE", "no reader of a Data integer handles the 64-bit form only and aborts on the rest (shared with C04)", floor=2)
     rep.guarded("R10-BIGINTSITE", lambda: c04.r_bigintsites(ctx.shape, rep, "R10-BIGINTSITE"))
+    rep.rule("R10-CONSTEVAL", "where the code generator evaluates user code at compile time (module constants, constant casts), a failing evaluation is not turned into a panic", floor=1)
+    rep.guarded("R10-CONSTEVAL", lambda: r_consteval(ctx.shape, rep))
     secs = {}
     rep.guarded("R10-PANIC-EVAL", lambda: secs.update(panic_sections(fl)))
     if "C10-eval" in secs:
@@ -315,3 +317,39 @@ def counter(ctx, rep):
     sk = find_enum(sh.file("crates/uplc/src/machine/cost_model.rs"), "StepKind")
     kinds = [v["name"] for v in sk["variants"] if v["name"] != "StartUp"]
     rep.check(len(kinds) == tc, "R10-COUNTER", "TERM_COUNT==step-kinds", "crates/uplc/src/machine.rs", "TERM_COUNT = %d but there are %d step kinds besides StartUp" % (tc, len(kinds)), sample={"TERM_COUNT": tc, "kinds": kinds})
+
+
+# ---------------------------------------------------------------------------------------------------------
+# R10-CONSTEVAL: compile-time evaluation of user code
+# ---------------------------------------------------------------------------------------------------------
+def r_consteval(sh, rep):
+    """The code generator runs the evaluator on pieces of the user's program while compiling (a module constant is evaluated
+    once and cached; a cast of a constant is folded). Whether that evaluation succeeds is up to the user's code —
+    `const r: Int = 1 / zero` — so its result must not be unwrapped."""
+    GEN = "crates/aiken-lang/src/gen_uplc.rs"
+    n = 0
+    for q, f in all_fns(sh.file(GEN)):
+        if "body" not in f:
+            continue
+        k = 0
+        for node, anc in walk_parents(f["body"]):
+            if node.get("k") != "MethodCall" or node["m"] != "result":
+                continue
+            if not any(c.get("k") == "MethodCall" and c["m"] in ("eval", "eval_version", "eval_as", "eval_version_with_protocol") for c in walk(node["recv"])):
+                continue
+            n += 1
+            k += 1
+            parent = next((a for a in reversed(anc) if a.get("k") == "MethodCall" and a.get("recv") is node), None)
+            how = None
+            if parent is not None and parent["m"] in ("unwrap", "expect"):
+                how = parent["m"]
+            elif parent is not None and parent["m"] in ("unwrap_or_else", "map_err", "or_else") and any(x.get("k") == "Macro" and last(x.get("path", "")) in ("panic", "unreachable", "todo") for x in walk(parent)):
+                how = parent["m"] + "(.. panic!)"
+            guard = next((a for a in reversed(anc) if a.get("k") == "If" and ("extract_constant(" in sh.nsrc(GEN, a["cond"]) or ".arguments.is_empty()" in sh.nsrc(GEN, a["cond"]))), None)  # second form: a constructor without arguments — constrData of a literal index and the empty list
+            if how is not None and guard is not None:
+                rep.ok("R10-CONSTEVAL", "%s#eval-result#%d" % (q.split("::")[-1], k), sh.loc(GEN, node), why="under `%s`: what is evaluated is a constant, alone or under a conversion towards Data (iData, bData, listData, mapData, constrData — total); for the conversion from Data the test is made on the very term that is evaluated" % sh.nsrc(GEN, guard["cond"])[:70], sample={"consumed_by": how})
+                continue
+            what = "module-constant" if "ModuleConstant" in sh.nsrc(GEN, next((a for a in reversed(anc) if a.get("k") == "Arm"), f["body"]))[:4000] and k == 1 else "site%d" % k
+            rep.check(how is None, "R10-CONSTEVAL", "%s#eval-result#%d" % (q.split("::")[-1], k), sh.loc(GEN, node), "%s evaluates part of the user's program while compiling and consumes the result with `%s`: an evaluation that fails — `const r: Int = 1 / zero`, `builtin.head_list([])` in a constant — panics the compiler instead of being reported" % (q, how), sample={"consumed_by": how})
+    if n < 1:
+        raise AnchorMissing("compile-time evaluations (`.eval(..).result()`) in gen_uplc.rs")
